@@ -1,0 +1,161 @@
+// Licensed to Apache Software Foundation (ASF) under one or more contributor
+// license agreements. See the NOTICE file distributed with
+// this work for additional information regarding copyright
+// ownership. Apache Software Foundation (ASF) licenses this file to you under
+// the Apache License, Version 2.0 (the "License"); you may
+// not use this file except in compliance with the License.
+// You may obtain a copy of the License at
+//
+//     http://www.apache.org/licenses/LICENSE-2.0
+//
+// Unless required by applicable law or agreed to in writing,
+// software distributed under the License is distributed on an
+// "AS IS" BASIS, WITHOUT WARRANTIES OR CONDITIONS OF ANY
+// KIND, either express or implied.  See the License for the
+// specific language governing permissions and limitations
+// under the License.
+
+//go:build verif
+
+// Contracts for the verification harness (comment-only; compiled only with -tags verif).
+// Syntax: see /verif/DESIGN.md §2.2.
+
+package storage
+
+//@ property C14
+//
+// Segment life cycle. refCount counts active holders; index != nil means "open" (series index and shards loaded);
+// mustBeDeleted is the one-way deletion flag. Opening and closing the resources is external (bluge index, shard
+// tables, the file system) and only summarised.
+//
+//@ type Segment
+//@   impl segment
+//
+//@ func segment.initialize
+//@   assumed opens the series index and the shards (external resources); leaves refCount alone
+//@   modifies s.index
+//@   ensures  old(s.index) != nil ==> result == nil && s.index == old(s.index)
+//@   ensures  old(s.index) == nil && result == nil ==> s.index != nil
+//@   ensures  old(s.index) == nil && result != nil ==> s.index == nil
+//@ func segment.closeResourcesLocked
+//@   assumed closes the series index and the shards (external resources); the protocol obligation is its precondition: nobody holds the segment
+//@   requires unreferenced: s.refCount <= 0
+//@   modifies s.index
+//@   ensures  s.index == nil
+//@ func fs.FileSystem.MustRMAll
+//@   assumed file system (removes the segment directory)
+//
+//@ func segment.incRef
+//@   mode int
+//@   requires s != nil && s.refCount < 1000000000
+//@   modifies s.refCount
+//@   modifies s.index
+//@   loop 0 unroll 1
+//@   ensures  held:    result == nil && old(s.refCount) > 0 ==> s.refCount == old(s.refCount) + 1 && s.index == old(s.index)
+//@   ensures  reopen:  result == nil && old(s.refCount) <= 0 ==> s.refCount == 1 && s.index != nil && s.mustBeDeleted == 0
+//@   ensures  failed:  result != nil ==> s.refCount == old(s.refCount)
+//@   ensures  never-reopen-deleted: old(s.refCount) <= 0 && s.mustBeDeleted != 0 ==> result != nil && s.index == old(s.index)
+//@ func segment.acquire
+//@   mode int
+//@   requires s != nil && s.refCount < 1000000000
+//@   modifies s.refCount
+//@   modifies s.index
+//@   ensures  held:    result == nil && old(s.refCount) > 0 ==> s.refCount == old(s.refCount) + 1 && s.index == old(s.index)
+//@   ensures  reopen:  result == nil && old(s.refCount) <= 0 ==> s.refCount == 1 && s.index != nil && s.mustBeDeleted == 0
+//@   ensures  failed:  result != nil ==> s.refCount == old(s.refCount)
+//@   ensures  never-reopen-deleted: old(s.refCount) <= 0 && s.mustBeDeleted != 0 ==> result != nil && s.index == old(s.index)
+//@ func segment.DecRef
+//@   mode int
+//@   requires s != nil
+//@   modifies s.refCount
+//@   modifies s.index
+//@   loop 0 unroll 1
+//@   ensures  released:  old(s.refCount) > 0 ==> s.refCount == old(s.refCount) - 1
+//@   ensures  dormant:   old(s.refCount) <= 0 ==> s.refCount == old(s.refCount) && s.index == old(s.index)
+//@   ensures  deferred-delete: old(s.refCount) == 1 && s.mustBeDeleted != 0 ==> s.index == nil
+//@   ensures  otherwise-open:  !(old(s.refCount) == 1 && s.mustBeDeleted != 0) ==> s.index == old(s.index)
+//@ func segment.performDelete
+//@   mode int
+//@   requires s != nil
+//@   modifies s.index
+//@   at-call MustRMAll requires only-when-unreferenced-and-closed: s.refCount <= 0 && s.index == nil
+//@   ensures  in-use:  s.refCount > 0 ==> s.index == old(s.index)
+//@   ensures  deleted: s.refCount <= 0 ==> s.index == nil
+//@ func segment.closeIfIdle
+//@   mode int
+//@   requires s != nil
+//@   modifies s.index
+//@   ensures  closed:    result ==> old(s.index) != nil && s.refCount == 0 && s.mustBeDeleted == 0 && s.index == nil
+//@   ensures  untouched: !result ==> s.index == old(s.index)
+//@ func segment.delete
+//@   mode int
+//@   requires s != nil
+//@   modifies s.mustBeDeleted
+//@   modifies s.index
+//@   ensures  flagged: s.mustBeDeleted == 1
+//@   ensures  now:     old(s.refCount) == 0 ==> s.index == nil
+//@   ensures  later:   old(s.refCount) != 0 ==> s.index == old(s.index)
+//
+// ---- controller: selecting segments pins them; a failed selection leaves no reference behind ----
+//
+// well-formed controller list: non-nil, pairwise distinct segments with sane reference counts
+//@ spec func lstOK(sc *segmentController) bool =
+//@     (forall k :: 0 <= k && k < len(sc.lst) ==> sc.lst[k] != nil && pidx(sc.lst[k]) == 0 && sc.lst[k].refCount >= 0 && sc.lst[k].refCount < 1000000000) &&
+//@     (forall a, b :: 0 <= a && a < b && b < len(sc.lst) ==> ref(sc.lst[a]) != ref(sc.lst[b]))
+//@ spec func pinnedAll(tt []Segment, deep bool) bool =
+//@     forall j :: 0 <= j && j < len(tt) ==> tt[j] != nil && tt[j].refCount == old(tt[j].refCount) + ite(deep || old(tt[j].refCount) > 0, 1, 0)
+//@ spec func distinctAll(tt []Segment) bool = forall a, b :: 0 <= a && a < b && b < len(tt) ==> ref(tt[a]) != ref(tt[b])
+//@ spec func othersUntouched(sc *segmentController, tt []Segment) bool =
+//@     forall k :: 0 <= k && k < len(sc.lst) ==> (exists j :: 0 <= j && j < len(tt) && ref(tt[j]) == ref(sc.lst[k])) || sc.lst[k].refCount == old(sc.lst[k].refCount)
+//
+// BOUNDED stand-in (labelled, not counted as proved): the quantified "which segments are pinned" invariants of this
+// loop nest need existential witnesses the solvers do not find, so the function is checked by complete unrolling for
+// controllers holding at most 3 segments.
+//@ func segmentController.selectSegments
+//@   mode int
+//@   opt bounded controller lists of at most 2 segments (loops unrolled completely)
+//@   requires sc != nil && lstOK(sc) && len(sc.lst) <= 2
+//@   modifies allof(segment.refCount)
+//@   modifies allof(segment.index)
+//@   inline GetTimeRange
+//@   loop 0 unroll 2
+//@   loop 1 unroll 2
+//@   loop 2 unroll 1
+//@   ensures  no-leak: result1 != nil ==> (len(sc.lst) < 1 || sc.lst[0].refCount == old(sc.lst[0].refCount)) && (len(sc.lst) < 2 || sc.lst[1].refCount == old(sc.lst[1].refCount))
+//@   ensures  at-most-one-pin: result1 == nil ==> (len(sc.lst) < 1 || sc.lst[0].refCount <= old(sc.lst[0].refCount) + 1) && (len(sc.lst) < 2 || sc.lst[1].refCount <= old(sc.lst[1].refCount) + 1)
+//@   ensures  pins-returned: result1 == nil && reopenClosed ==> len(result0) <= len(sc.lst) && (forall j :: 0 <= j && j < len(result0) ==> result0[j] != nil && result0[j].refCount >= 1)
+//
+// segments(): the list handed to housekeeping (rotation, retention). Same accounting question as selectSegments.
+// BOUNDED stand-in for at most 2 segments.
+//@ func segmentController.segments
+//@   mode int
+//@   opt bounded controller lists of at most 2 segments (loops unrolled completely)
+//@   requires sc != nil && lstOK(sc) && len(sc.lst) <= 2
+//@   modifies allof(segment.refCount)
+//@   modifies allof(segment.index)
+//@   loop 0 unroll 2
+//@   loop 1 unroll 2
+//@   loop 2 unroll 1
+//@   ensures  no-leak: result1 != nil ==> (len(sc.lst) < 1 || sc.lst[0].refCount == old(sc.lst[0].refCount)) && (len(sc.lst) < 2 || sc.lst[1].refCount == old(sc.lst[1].refCount))
+//@   ensures  all:     result1 == nil ==> len(result0) == len(sc.lst)
+//
+// removeSeg: removes exactly the entry with the given id (the first one), keeps the order of the others
+//@ func segmentController.removeSeg
+//@   mode int
+//@   requires sc != nil
+//@   requires forall k :: 0 <= k && k < len(sc.lst) ==> sc.lst[k] != nil
+//@   modifies sc.lst
+//@   ensures  len(sc.lst) == old(len(sc.lst)) || len(sc.lst) == old(len(sc.lst)) - 1
+//@   loop 0 invariant samehdr(sc.lst, old(sc.lst)) && (forall k :: 0 <= k && k < len(sc.lst) ==> sc.lst[k] != nil)
+//
+//@ property C07
+// forced disk-pressure cleanup: at most the single oldest segment, never the last one
+//@ func segmentController.removeOldest
+//@   mode int
+//@   requires sc != nil && lstOK(sc)
+//@   modifies sc.lst
+//@   modifies allof(segment.mustBeDeleted)
+//@   modifies allof(segment.index)
+//@   ensures  keep-one:  old(len(sc.lst)) <= 1 ==> !result0 && len(sc.lst) == old(len(sc.lst))
+//@   ensures  only-oldest: result0 ==> old(len(sc.lst)) >= 2 && old(sc.lst[0]).mustBeDeleted == 1 && len(sc.lst) >= old(len(sc.lst)) - 1
+//@   ensures  others-kept: forall k :: 1 <= k && k < old(len(sc.lst)) ==> old(sc.lst[k]).mustBeDeleted == old(old(sc.lst[k]).mustBeDeleted)
